@@ -572,6 +572,10 @@ def conc_corpus():
         "conc corpus_rm_put\ncfg kt=bytes n=100\nsetup put 6b31 5858\nthread 1 remove 6b31\nthread 2 put 6b32 5858\nsched 2 2 2 1 1 1 1 1 1 2 2 1 1 1 2 2 2 2 2 2\nend\n",
         "conc corpus_aba\ncfg kt=bytes n=100\nsetup put 6b 5858\nthread 1 get 6b\nthread 2 remove 6b\nthread 2 put 6b 5858\nsched 1 1 1 2 2 2 2 2 2 2 2 2 2 2 1 2 2 2 2 2 2 2 2 2 2 2 2 2 1 1 1\nend\n",
         "conc corpus_ckpt\ncfg kt=bytes n=1\nsetup put 6b31 5858\nthread 1 checkpoint\nthread 2 put 6b32 5959\nthread 3 get 6b31\nseed 5\nend\n",
+        # a removal parked at its unlink while a put of the same content registers and renames (only possible if
+        # the remover has let go of the intents lock too early: the forced prefix is skipped where a lock is taken)
+        "conc corpus_rm_unlink_window\ncfg kt=bytes n=100\nsetup put 6b31 5858\nthread 1 remove 6b31\nthread 2 put 6b32 5858\nthread 2 get 6b32\nfsched 1 1 1 1 1 1 1 2 2 2 2 1 1 1 2 2 2 2 2 2 2 2 2 2 2\nsched 1 1 1 1 1 1 1 2 2 2 2 1 1 1 2 2 2 2 2 2 2 2 2 2 2\nend\n",
+        "conc corpus_ow_unlink_window\ncfg kt=bytes n=100\nsetup put 6b31 5858\nthread 1 put 6b31 5a5a\nthread 2 put 6b32 5858\nthread 2 reader 6b32\nfsched 1 1 1 1 1 1 1 1 1 2 2 2 2 1 1 1 2 2 2 2 2 2 2 2 2 2 2\nsched 1 1 1 1 1 1 1 1 1 2 2 2 2 1 1 1 2 2 2 2 2 2 2 2 2 2 2\nend\n",
         # ranged read and streaming read racing with an overwrite by a longer value
         "conc corpus_range_grow\ncfg kt=bytes n=100\nsetup put 6b 5858\nthread 1 range 6b\nthread 2 put 6b 595959595959\nsched 1 1 1 2 2 2 2 2 2 2 2 2 2 2 2 1 1 1 1\nend\n",
         "conc corpus_reader_grow\ncfg kt=bytes n=100\nsetup put 6b 5858\nthread 1 reader 6b\nthread 2 put 6b 595959595959\nsched 1 1 2 2 2 2 2 2 2 2 2 2 2 2 1 1 1 1 1\nend\n",
